@@ -184,6 +184,25 @@ def s_allocation(v):
     ]
 
 
+def s_two_named_registers(i):
+    """R{i} and R{j} (every j != i) are the only R registers named; one instruction carries three literals, others two / one:
+    wherever the named registers sit, every scratch register is another one"""
+    def schema(v, choice):
+        j = choice("j", [k for k in range(16) if k != i])
+        a, b, c = v("a", *I32), v("b", -1000, 1000), v("c", -1000, 1000)
+        return [
+            Ins("set", [R("R", i), Lit(11)]),
+            Ins("set", [R("R", j), Lit(22)]),
+            Ins("array", [Lit(4), Addr(0)]),
+            Ins("store", [Lit(a), Entry(0, Lit(2))]),
+            Ins("addm", [R("C", 0), Lit(b), Lit(c), Lit(7)]),
+            Ins("store", [R("R", j), Entry(0, R("R", i))]) if False else Ins("store", [R("R", j), Entry(0, Lit(1))]),
+            Ins("ret_reg", [R("R", i)]), Ins("ret_reg", [R("R", j)]), Ins("ret_reg", [R("C", 0)]), Ins("ret_arr", [Addr(0)]),
+        ]
+    schema.wants_choice = True
+    return schema
+
+
 SCHEMAS = {
     "literals in every value position of the classical instructions": s_literals_classical,
     "arrays: literal sizes, values, indices; argument brackets": s_arrays,
@@ -338,7 +357,7 @@ def build():
         def f(ctx):
             def v(n, lo, hi):
                 return ctx.int(n, lo, hi)
-            prog = schema(v)
+            prog = schema(v, ctx.choice) if getattr(schema, "wants_choice", False) else schema(v)
             if route == "text":
                 text = ctx.call(S.render, prog)
                 out = ctx.attempt(parse_text_subroutine, text, flavour=ctx.call(VanillaFlavour))
@@ -349,6 +368,8 @@ def build():
                 _compare(ctx, prog, out[1], route, INIT.get(name, ()))
         return f
 
+    for i in range(16):
+        SCHEMAS[f"R{i} and any other R register named; up to three literals in one instruction"] = s_two_named_registers(i)
     for name, schema in SCHEMAS.items():
         for route in ("text", "ir"):
             R_.add(f"schema[{name}][{route}]", kind="exact", samples=8, max_paths=300)(mk(name, schema, route))
